@@ -667,6 +667,9 @@ def h2e(v):
         v = base.getvector(v, out='col')
         return v[0:-1] / v[-1]
 
+    else:
+        raise ValueError('bad argument')
+
 def e2h(v):
     """
     Convert from Euclidean to homogeneous form
@@ -701,6 +704,9 @@ def e2h(v):
         # dealing with shape (N,) array
         v = base.getvector(v, out='col')
         return np.vstack((v, 1))
+
+    else:
+        raise ValueError('bad argument')
 
 def homtrans(T, p):
     r"""
